@@ -1,7 +1,7 @@
 """C06 Compile-time evaluation agrees with run-time evaluation — ConstEval.tla + vh-exec.
 
 1. TLC model-checks ConstEval.tla on the whole pool (every operator x width x ordered pair of
-   boundary operands, shifts, casts, b256 ops, two-operator chains): the compiler's two evaluators
+   boundary operands, shifts, casts, b256 ops, two-operator chains, tuples/arrays): the compiler's two evaluators
    as the code has them (CE = front-end const_eval.rs reading std's ops.sw; Fold = IR
    const-folding rules) against the run-time meaning Sem (SwaySem/IntSem): Agreement,
    NoSubstitution on Abort, NoPanic.  One replay record per case is printed.
@@ -25,9 +25,9 @@ from lib.swaygen import Renderer, r_lit, WIDTH
 from lib.swayexec import run_packages, observe
 
 TYPES = ["u8", "u16", "u32", "u64", "u256"]
-CLASSES = ["bin", "shift", "not", "widen", "narrow", "chain"]
+CLASSES = ["bin", "shift", "not", "widen", "narrow", "chain", "agg"]
 PROCS = 4
-BATCH_RUN = 160        # cases per package whose tests run on the VM
+BATCH_RUN = 300        # cases per package whose tests run on the VM
 BATCH_REFUSE = 400     # cases per package expected not to compile (verdicts come from hook H8)
 CONST_ERR = "Could not evaluate initializer to a const declaration"
 CFG_ERR = "Could not evaluate initializer"
@@ -45,36 +45,55 @@ def describe(e):
     return R.expr(e)
 
 
+CHAIN_PAIRS = ["add-sub", "sub-add", "mul-div", "div-mul"]
+
+
+def mc_cfg(ctx, name, **subst):
+    """A copy of MC_ConstEval.cfg with some CONSTANT lines replaced."""
+    text = open(os.path.join(SPEC, "MC_ConstEval.cfg")).read()
+    for k, v in subst.items():
+        text, n = re.subn(r"CONSTANT %s = .*\n" % k, "CONSTANT %s = %s\n" % (k, v), text)
+        if n != 1:
+            raise ToolError("MC_ConstEval.cfg: no CONSTANT %s line" % k)
+    p = os.path.join(ctx.work, name + ".cfg")
+    with open(p, "w") as f:
+        f.write(text)
+    return p
+
+
+def tla_set(xs):
+    return "{" + ", ".join(('"%s"' % x) if isinstance(x, str) else str(x) for x in xs) + "}"
+
+
 def enumerate_pool(ctx):
-    """Run the model on every (class, type) block; returns (cases, tlc results)."""
-    cases, results = [], []
-    for ty in TYPES + ["b256"]:
-        cfg = os.path.join(ctx.work, "MC_ConstEval_%s.cfg" % ty)
-        base = open(os.path.join(SPEC, "MC_ConstEval.cfg")).read()
-        if ty == "b256":
-            sel = 'CONSTANT ClsSel = {"b256"}\nCONSTANT TySel = {}\n'
-        else:
-            sel = 'CONSTANT ClsSel = {%s}\nCONSTANT TySel = {"%s"}\n' % (", ".join('"%s"' % c for c in CLASSES), ty)
-        base = re.sub(r"CONSTANT ClsSel.*\n", "", base)
-        base = re.sub(r"CONSTANT TySel.*\n", "", base)
-        with open(cfg, "w") as f:
-            f.write(sel + base)
-        r = ctx.tlc("MC_ConstEval", cfg, workers=4, coverage=(ty == "u8"), name="MC_ConstEval_" + ty, timeout=3000)
-        results.append((ty, r))
-        if r.violated:
-            continue
-        cases += r.printed("REPLAY")
-    seen, out = set(), []
-    for c in cases:
-        k = case_key(c)
-        if k not in seen:
-            seen.add(k)
-            out.append(c)
+    """Model-check ConstEval.tla on the pool and collect one replay record per case.
+    thorough: the whole pool.  quick: four of the ten boundary operands (rotated by the seed: every
+    ordered pair is met by some seed) and one of the four arithmetic chain shapes."""
+    if ctx.quick:
+        bsel = sorted({(ctx.seed + d) % 10 + 1 for d in (0, 1, 3, 6)})      # {0,1,3,6} covers every difference mod 10
+        chain = [CHAIN_PAIRS[ctx.seed % 4]]
+    else:
+        bsel, chain = list(range(1, 11)), CHAIN_PAIRS
+    cfg = mc_cfg(ctx, "MC_ConstEval_pool", BSel=tla_set(bsel), ChainSel=tla_set(chain))
+    # anti-vacuity: every action of the model fires (coverage on a small block, run beside the pool run;
+    # -coverage on the whole pool exhausts the heap)
+    ccfg = mc_cfg(ctx, "MC_ConstEval_cov", ClsSel=tla_set(["not", "narrow"]), TySel=tla_set(["u8", "u64"]), BSel=tla_set([1, 4, 7]))
+    with ThreadPoolExecutor(max_workers=2) as ex:
+        fcov = ex.submit(lambda: ctx.tlc("MC_ConstEval", ccfg, workers=1, xss="256m", coverage=True,
+                                         name="MC_ConstEval_cov", count=False))
+        fpool = ex.submit(lambda: ctx.tlc("MC_ConstEval", cfg, workers=4, xss="256m", xmx="6g",
+                                          name="MC_ConstEval_pool", timeout=3000))
+        r, cov = fpool.result(), fcov.result()
+    actions = cov.coverage_actions()
+    for a in ("Init", "RunTime", "CompileTime", "FoldIR"):
+        if actions.get(a, (0, 0))[0] == 0:
+            raise ToolError("ConstEval.tla: action %s never fires" % a)
+    out = [] if r.violated else r.printed("REPLAY")
     out.sort(key=case_key)
     for i, c in enumerate(out):
         c["id"] = "k%05d" % i
         c["n"] = i
-    return out, results
+    return out, r, actions, {"BSel": bsel, "ChainSel": chain}
 
 
 # ------------------------------------------------------------------ rendering
@@ -85,6 +104,8 @@ def launder(e):
     for f in ("l", "r", "e"):
         if f in out and isinstance(out[f], dict):
             out[f] = launder(out[f])
+    if "es" in out:
+        out["es"] = [launder(x) for x in out["es"]]
     return out
 
 
@@ -169,6 +190,7 @@ class Groups:
         self.seq = 0
         self.builds = 0
         self.hook_verdicts = 0
+        self.pending = []
 
     def pkg(self, cases):
         self.seq += 1
@@ -183,29 +205,26 @@ class Groups:
         self.obs[c["n"]] = {"r": self.r, "k": k, "out": out, "logs": [list(x) for x in logs], "code": list(code),
                             "detail": detail}
 
-    def run(self, groups):
-        """groups: list of case lists."""
-        rnd = 0
-        while groups:
-            rnd += 1
-            if rnd > 40:
-                raise ToolError("C06: attribution of build failures does not converge (rendering %s)" % self.r)
-            jobs = [self.pkg(g) for g in groups if g]
-            self.builds += len(jobs)
-            res = run_packages(self.ctx, [j[0] for j in jobs], procs=PROCS)
-            groups = []
-            for rec, cases in jobs:
-                groups += self.digest(rec, cases, res[rec["id"]])
+    def add(self, groups):
+        self.pending += [g for g in groups if g]
+
+    def jobs(self):
+        js = [self.pkg(g) for g in self.pending]
+        self.pending = []
+        self.builds += len(js)
+        return js
 
     def hook_lines(self, rec):
         p = rec["env"].get("SWAY_VERIF_CONST_TRACE")
         if not p or not os.path.exists(p):
             return []
         out = []
-        for l in read_ndjson(p):
-            m = re.match(r"C_(\d+)$", l.get("name", ""))
+        pat = re.compile(r'"name":"C_(\d+)","ok":(true|false),"panic":(true|false),"val":"(.*)')
+        for line in open(p, errors="replace"):
+            # (the hook cuts `val` at a fixed length, possibly inside an escape: do not rely on the line being valid JSON)
+            m = pat.search(line)
             if m:
-                out.append((int(m.group(1)), l["ok"], bool(l.get("panic")), l.get("val", "")))
+                out.append((int(m.group(1)), m.group(2) == "true", m.group(3) == "true", m.group(4).rstrip()[:300]))
         return out
 
     def digest(self, rec, cases, r):
@@ -237,7 +256,11 @@ class Groups:
             return []
         diag = b.get("diag") or ""
         panic = b.get("panic")
-        errs = [x.strip() for x in diag.split("____") if x.strip().startswith("error")]
+        errs = []
+        for chunk in diag.split("____"):
+            m = re.search(r"(?m)^error\b", chunk)
+            if m:
+                errs.append(chunk[m.start():].strip())
         if self.r == "a":
             hook = self.hook_lines(rec)
             if hook and sorted(h[0] for h in hook) != sorted(by_n):
@@ -271,42 +294,98 @@ def chunks(xs, n):
     return [xs[i:i + n] for i in range(0, len(xs), n)]
 
 
-# ------------------------------------------------------------------ trace validation
-def validate_shard(ctx, idx, recs, tag="tr"):
-    validated, rejections = 0, []
-    recs = list(recs)
+def drive(ctx, gs):
+    """Build the pending groups of every rendering together (one pool of vh-exec processes per round)
+    until every case has its observation."""
     rnd = 0
-    while recs:
+    while any(g.pending for g in gs):
         rnd += 1
-        tp = os.path.join(ctx.work, "%s-%d-%d.ndjson" % (tag, idx, rnd))
-        write_ndjson(tp, recs)
-        tr = ctx.tlc_trace("Trace_ConstEval", "Trace_ConstEval", tp, name="%s-%d-%d" % (tag, idx, rnd), timeout=3000)
-        if tr.violated is None:
-            validated += sum(len(r["obs"]) for r in recs)
-            break
-        m = re.search(r'<<"FIRST-UNMATCHED", (\d+), (\d+), "(.*)">>', tr.out)
-        if tr.violated != "postcondition" or not m:
-            raise ToolError("Trace_ConstEval failed unexpectedly (%s); see work/%s/tlc-%s-%d-%d.out" % (tr.violated, ctx.pid, tag, idx, rnd))
-        l, j = int(m.group(1)), int(m.group(2))
-        expected = json.loads(m.group(3).replace('\\"', '"'))
-        bad = recs[l - 1]
-        validated += sum(len(r["obs"]) for r in recs[:l - 1]) + (j - 1)
-        rejections.append({"case": bad, "obs": bad["obs"][j - 1], "expected": expected})
-        rest = dict(bad)
-        rest["obs"] = bad["obs"][j:]
-        recs = ([rest] if rest["obs"] else []) + recs[l:]
-    return validated, rejections
+        if rnd > 40:
+            raise ToolError("C06: attribution of build failures does not converge")
+        jobs = [(g, j) for g in gs for j in g.jobs()]
+        # big packages first
+        jobs.sort(key=lambda x: -len(x[1][1]))
+        res = run_packages(ctx, [j[0] for _, j in jobs], procs=PROCS)
+        for g, (rec, cases) in jobs:
+            g.add(g.digest(rec, cases, res[rec["id"]]))
 
 
-def validate(ctx, recs, shard=700, par=4, tag="tr"):
-    shards = chunks(recs, shard)
+# ------------------------------------------------------------------ trace validation
+def validate_shard(ctx, idx, recs, tag="tr", cfg="Trace_ConstEval"):
+    """One Trace_ConstEval run over recs. Returns (observations accepted, rejections)."""
+    tp = os.path.join(ctx.work, "%s-%d.ndjson" % (tag, idx))
+    write_ndjson(tp, recs)
+    tr = ctx.tlc_trace("Trace_ConstEval", cfg, tp, name="%s-%d" % (tag, idx), timeout=3000)
+    total = sum(len(r["obs"]) for r in recs)
+    if tr.violated is None:
+        return total, []
+    m = re.search(r'<<"FIRST-UNMATCHED", (\d+), "rejected", (\d+)>>', tr.out)
+    if tr.violated != "postcondition" or not m or int(m.group(1)) != len(recs) + 1:
+        raise ToolError("Trace_ConstEval failed unexpectedly (%s); see work/%s/tlc-%s-%d.out" % (tr.violated, ctx.pid, tag, idx))
+    rejections = []
+    for rj in tr.printed("REJECT"):
+        bad = recs[rj["l"] - 1]
+        for j, ok in enumerate(rj["ok"]):
+            if not ok:
+                rejections.append({"case": bad, "obs": bad["obs"][j],
+                                   "expected": {"sem": rj["sem"], "ce": rj["ce"], "fold": rj.get("fold")}})
+    if len({id(r["case"]) for r in rejections}) != int(m.group(2)):
+        raise ToolError("Trace_ConstEval: %s rejected records counted, %d printed" % (m.group(2), len(rejections)))
+    return total - len(rejections), rejections
+
+
+def validate(ctx, recs, shard=700, par=4, tag="tr", cfg="Trace_ConstEval"):
+    if not recs:
+        return 0, []
+    shards = chunks(recs, max(1, min(shard, (len(recs) + par - 1) // par)))
     with ThreadPoolExecutor(max_workers=par) as ex:
-        results = list(ex.map(lambda a: validate_shard(ctx, a[0], a[1], tag), enumerate(shards)))
+        results = list(ex.map(lambda a: validate_shard(ctx, a[0], a[1], tag, cfg), enumerate(shards)))
     return sum(r[0] for r in results), [x for r in results for x in r[1]]
 
 
+# ------------------------------------------------------------------ the IR pass on one instruction (vh-fold)
+FOLD_OPS = {"add", "sub", "mul", "div", "mod", "and", "or", "xor", "shl", "shr", "eq", "lt", "gt"}
+
+
+def fold_input(c):
+    """The IR instruction a single-operator case is built around, or None."""
+    e = c["e"]
+    if e["k"] == "un" and e["e"]["k"] == "lit":
+        return {"id": c["id"], "kind": "un", "op": "not", "ty": e["e"]["t"], "a": e["e"]["b"], "b": [], "bty": e["e"]["t"]}
+    if e["k"] == "bin" and e["l"]["k"] == "lit" and e["r"]["k"] == "lit" and e["op"] in FOLD_OPS:
+        return {"id": c["id"], "kind": "cmp" if e["op"] in ("eq", "lt", "gt") else "bin", "op": e["op"],
+                "ty": e["l"]["t"], "a": e["l"]["b"], "b": e["r"]["b"], "bty": e["r"]["t"]}
+    return None
+
+
+def fold_records(ctx, sel):
+    """Run the real const-folding pass on the instruction of every single-operator case."""
+    inputs = [(c, fold_input(c)) for c in sel]
+    inputs = [(c, i) for c, i in inputs if i]
+    inp, outp = os.path.join(ctx.work, "fold.in.ndjson"), os.path.join(ctx.work, "fold.out.ndjson")
+    write_ndjson(inp, [i for _, i in inputs])
+    ctx.vh("vh-fold", ["--in", inp, "--out", outp])
+    res = {r["id"]: r for r in read_ndjson(outp)}
+    recs = []
+    for c, _ in inputs:
+        r = res.get(c["id"])
+        if r is None:
+            raise ToolError("vh-fold: no result for %s" % c["id"])
+        if r.get("err"):
+            raise ToolError("vh-fold: %s on %s" % (r["err"], describe(c["e"])))
+        if r.get("panic"):
+            o = {"r": "f", "k": "panic", "out": "", "logs": [], "code": [], "detail": r["panic"][:300]}
+        elif r["folded"]:
+            o = {"r": "f", "k": "folded", "out": "", "logs": [r["v"]], "code": [], "detail": ""}
+        else:
+            o = {"r": "f", "k": "notfolded", "out": "", "logs": [], "code": [], "detail": ""}
+        recs.append({"id": c["id"], "cls": c["cls"], "ty": c["ty"], "e": c["e"], "obs": [o], "exp": c["expect"]["k"]})
+    return recs
+
+
 RNAME = {"a": "const declaration", "g": "configurable", "b": "function body (release, const-folding)",
-         "p": "function body (release, ccp + const-folding)", "c": "run time (operands laundered)"}
+         "p": "function body (release, ccp + const-folding)", "c": "run time (operands laundered)",
+         "f": "IR instruction given to the const-folding pass"}
 
 
 def op_key(c):
@@ -318,10 +397,15 @@ def report_rejection(ctx, rj):
     c, o = rj["case"], rj["obs"]
     exp = rj["expected"]
     got = ("value %s" % [bytes(x).hex() for x in o["logs"]] if o["k"] == "ran" and o["out"] == "return"
-           else "revert" if o["k"] == "ran" else {"cerror": "compile error", "panic": "COMPILER PANIC"}.get(o["k"], o["k"]))
+           else "revert" if o["k"] == "ran"
+           else "folded to %s" % bytes(o["logs"][0]).hex() if o["k"] == "folded"
+           else {"cerror": "compile error", "panic": "COMPILER PANIC", "notfolded": "not folded"}.get(o["k"], o["k"]))
     want = ("value %s" % bytes(exp["sem"]["v"]).hex()) if exp["sem"]["k"] == "val" else "Abort"
+    if o["r"] == "f":
+        f = (exp.get("fold") or {}).get("f") or {}
+        want = ("the folding rules give %s" % bytes(reversed(f.get("r", []))).hex()) if f.get("k") == "val" else "the folding rules do not fold"
     ctx.report("%s:%s" % (o["r"], op_key(c)),
-               "%s as %s: %s; run-time semantics: %s%s" % (describe(c["e"]), RNAME[o["r"]], got, want,
+               "%s as %s: %s; %s%s%s" % (describe(c["e"]), RNAME[o["r"]], got, "" if o["r"] == "f" else "run-time semantics: ", want,
                                                           (" (" + o["detail"][:160] + ")") if o.get("detail") else ""),
                {"case": {k: c[k] for k in ("id", "cls", "ty", "e")}, "sway": describe(c["e"]), "rendering": o["r"],
                 "observed": o, "spec": exp})
@@ -329,77 +413,79 @@ def report_rejection(ctx, rj):
 
 # ------------------------------------------------------------------ main
 def select(ctx, cases):
+    flt = os.environ.get("C06_FILTER")          # development aid: only the cases whose key matches the regex
+    if flt:
+        return [c for c in cases if re.search(flt, op_key(c))]
     if not ctx.quick:
         return cases
-    # quick: a VERIF_SEED-selected slice, stratified by class x operand type so that every stratum is present
+    # quick: a VERIF_SEED-selected slice, stratified by class x operand type x top-level operator so that
+    # every stratum is present
     strata = {}
     for c in cases:
-        strata.setdefault((c["cls"], operand_type(c)), []).append(c)
+        strata.setdefault((c["cls"], operand_type(c), c["e"].get("op") or c["e"].get("t") or c["e"]["k"]), []).append(c)
     out = []
     for k in sorted(strata):
-        out += slice_for_seed(strata[k], ctx.seed, max(6, len(strata[k]) // 30))
+        out += slice_for_seed(strata[k], ctx.seed, max(2, (len(strata[k]) + 9) // 10))
     return out
 
 
 def operand_type(c):
     e = c["e"]
     while e["k"] != "lit":
-        e = e.get("l") or e.get("e")
+        e = e.get("l") or e.get("e") or e["es"][0]
     return e["t"]
 
 
 def run(ctx):
-    cases, mcs = enumerate_pool(ctx)
-    for ty, r in mcs:
-        if r.violated:
-            ctx.report("model:%s:%s" % (r.violated, ty),
-                       "ConstEval.tla: invariant %s fails on the %s block of the pool" % (r.violated, ty),
-                       {"tlc": r.counterexample()[:6000]})
-    if ctx.violations:
-        return ctx.finish("model_checking", {"traces_validated_against_impl": 0, "samples": []})
+    cases, mc, actions, consts = enumerate_pool(ctx)
+    if mc.violated:
+        ctx.report("model:%s" % mc.violated,
+                   "ConstEval.tla: the compiler's evaluators as transcribed violate %s" % mc.violated,
+                   {"tlc": mc.counterexample()[:6000]})
+        return ctx.finish("model_checking", {"traces_validated_against_impl": 0, "samples": [], "constants": consts})
     sel = select(ctx, cases)
     log("[C06] pool %d cases, selected %d" % (len(cases), len(sel)))
     refused = lambda c: c["expect"]["k"] != "val" or c["ce"] != "val"
     # --- a: const declarations
     ga = Groups(ctx, "a")
-    ga.run(chunks([c for c in sel if not refused(c)], BATCH_RUN) + chunks([c for c in sel if refused(c)], BATCH_REFUSE))
+    ga.add(chunks([c for c in sel if not refused(c)], BATCH_RUN) + chunks([c for c in sel if refused(c)], BATCH_REFUSE))
     # --- g: configurables (a slice: every 7th case that evaluates, and a few that must not)
     gg = Groups(ctx, "g")
     cfg_ok = [c for c in sel if not refused(c)][::7]
-    cfg_bad = [c for c in sel if refused(c)][:: (97 if not ctx.quick else 61)]
-    gg.run(chunks(cfg_ok, BATCH_RUN) + [[c] for c in cfg_bad])
+    cfg_bad = [c for c in sel if refused(c)][::(151 if not ctx.quick else 61)]
+    gg.add(chunks(cfg_ok, BATCH_RUN) + [[c] for c in cfg_bad])
     # --- b: literals in function bodies, release
     gb = Groups(ctx, "b")
-    gb.run(chunks(sel, BATCH_RUN))
-    # --- p: ccp + folding (a slice: binary cases and shifts)
+    gb.add(chunks(sel, BATCH_RUN))
+    # --- p: ccp + folding (a slice: binary cases, shifts, chains)
     gp = Groups(ctx, "p")
-    gp.run(chunks([c for c in sel if c["cls"] in ("bin", "shift", "chain")][::3], BATCH_RUN))
+    gp.add(chunks([c for c in sel if c["cls"] in ("bin", "shift", "chain", "b256") and c["e"]["k"] == "bin"][::3], BATCH_RUN))
     # --- c: run time
     gc = Groups(ctx, "c")
-    gc.run(chunks(sel, BATCH_RUN))
+    gc.add(chunks(sel, BATCH_RUN))
+    drive(ctx, [ga, gb, gc, gp, gg])
     # --- trace records
     recs = []
     for c in sel:
         obs = [g.obs[c["n"]] for g in (gc, ga, gg, gb, gp) if c["n"] in g.obs]
-        recs.append({"id": c["id"], "cls": c["cls"], "ty": c["ty"], "e": c["e"], "obs": obs})
+        recs.append({"id": c["id"], "cls": c["cls"], "ty": c["ty"], "e": c["e"], "obs": obs, "exp": c["expect"]["k"]})
     write_ndjson(os.path.join(ctx.work, "observations.ndjson"), recs)
     validated, rejections = validate(ctx, recs)
-    for rj in rejections:
+    # --- f: the const-folding pass itself on the instruction of every single-operator case
+    frecs = fold_records(ctx, sel)
+    fvalidated, frej = validate(ctx, frecs, tag="fold", cfg="Trace_ConstEvalFold")
+    validated += fvalidated
+    for rj in rejections + frej:
         report_rejection(ctx, rj)
     # --- binding self-test: corrupt one recorded value / turn one compile error into a value
-    binding = None
-    if not ctx.quick or True:
-        binding = self_test(ctx, recs)
+    binding = self_test(ctx, recs) if not ctx.quick else None
     per = {g.r: len(g.obs) for g in (ga, gg, gb, gp, gc)}
+    per["f"] = len(frecs)
     kinds = {}
-    for r in recs:
+    for r in recs + frecs:
         for o in r["obs"]:
             kk = "%s:%s" % (o["r"], o["k"] if o["k"] != "ran" else o["out"])
             kinds[kk] = kinds.get(kk, 0) + 1
-    cov = {}
-    for ty, r in mcs:
-        if ty == "u8":
-            cov = r.coverage_actions()
     sample = [{"sway": describe(r["e"]), "obs": [{k: o[k] for k in ("r", "k", "out", "logs")} for o in r["obs"]]}
               for r in (recs[:2] + recs[len(recs) // 2:len(recs) // 2 + 2] + recs[-2:])]
     return ctx.finish("model_checking", {
@@ -413,7 +499,7 @@ def run(ctx):
         "spec_abort_cases": sum(1 for c in sel if c["expect"]["k"] != "val"),
         "spec_refusal_cases": sum(1 for c in sel if c["expect"]["k"] == "val" and c["ce"] != "val"),
         "binding_self_test": binding,
-        "action_coverage": cov,
+        "action_coverage": actions, "constants": consts,
         "samples": sample,
     }, assumptions=[
         "Sem = SwaySem/IntSem is the run-time reference; it is bound to the VM by rendering c (operands laundered through #[inline(never)] identity functions, debug build)",
@@ -434,14 +520,13 @@ def self_test(ctx, recs):
                 m["obs"] = [copy.deepcopy(o)]
                 m["obs"][0]["logs"][0][-1] ^= 1
                 muts.append(("flip", m))
-            if o["r"] == "a" and o["k"] == "cerror" and not any(m[0] == "subst" for m in muts):
+            w = {"bool": 1}.get(r["ty"]) or WIDTH.get(r["ty"], 8)
+            if o["r"] == "a" and o["k"] == "cerror" and r["exp"] == "abort" and not any(m[0] == "subst" for m in muts):
                 m = copy.deepcopy(r)
-                w = {"bool": 1}.get(r["ty"]) or WIDTH[r["ty"]]
                 m["obs"] = [dict(o, k="ran", out="return", logs=[[0] * w], code=[])]
                 muts.append(("subst", m))
             if o["r"] == "b" and o["k"] == "ran" and o["out"] == "revert" and not any(m[0] == "norevert" for m in muts):
                 m = copy.deepcopy(r)
-                w = {"bool": 1}.get(r["ty"]) or WIDTH[r["ty"]]
                 m["obs"] = [dict(o, out="return", logs=[[0] * w], code=[])]
                 muts.append(("norevert", m))
             if o["r"] == "c" and o["k"] == "ran" and o["out"] == "return" and not any(m[0] == "panic" for m in muts):
@@ -454,6 +539,14 @@ def self_test(ctx, recs):
         res[name] = "rejected" if rej else "ACCEPTED"
         if not rej:
             raise ToolError("C06 binding self-test: Trace_ConstEval accepted a corrupted observation (%s)" % name)
+    # the model itself: with the two repaired defects switched back on, TLC must find NoPanic violated
+    for const, cls, ty in (("F12Fixed", ["bin"], ["u256"]), ("B256CmpFixed", ["b256"], [])):
+        cfg = mc_cfg(ctx, "MC_ConstEval_un" + const, ClsSel=tla_set(cls), TySel=tla_set(ty), BSel=tla_set([1, 2]),
+                     **{const: "FALSE"})
+        r = ctx.tlc("MC_ConstEval", cfg, workers=1, xss="256m", name="MC_ConstEval_un" + const, count=False)
+        res["model_without_" + const] = r.violated or "NO VIOLATION"
+        if r.violated != "NoPanic":
+            raise ToolError("C06 self-test: ConstEval.tla with %s = FALSE does not violate NoPanic" % const)
     return res
 
 
